@@ -45,7 +45,8 @@ def snapshot(pl):
 
 
 def gen(ctx):
-    pl = G.random_pipeline(ctx.rng, entrance_zero=True, vary_speed=True)
+    # mostly the usual zero-length entrance; sometimes the line starts with a real suction pipe (length > 0, elevation change = suction depth)
+    pl = G.random_pipeline(ctx.rng, entrance_zero=(ctx.rng.random() < 0.7), vary_speed=True)
     from DHLLDV.PipeObj import Pipe
     # pump state changed after construction; repeated identical sections
     for s in pl.pipesections:
